@@ -223,9 +223,46 @@ Proof.
   destruct (match ls with [] => ok | _ :: _ => false end); [discriminate|].
   destruct (ps_ver_is_last true l last); [discriminate|].
   destruct (ps_ver_malformed _ st en); [discriminate|].
+  destruct (ps_ver_overlap _ _); [discriminate|].
   destruct (Z.ltb _ _); [discriminate|].
   destruct (b64_dec _); cbn [bind]; try discriminate.
   destruct (ver_scan i st en first last ok true ls) as [[acc|]| |]; cbn [bind]; try discriminate. contradiction.
+Qed.
+Lemma b64_dec_q_no_panic : forall n l, (length l <= n)%nat -> forall q, b64_dec_q l <> Panic q.
+Proof.
+  induction n as [|n IH]; intros l Hl q.
+  - destruct l; [discriminate|cbn in Hl; lia].
+  - destruct l as [|c0 [|c1 [|c2 [|c3 r]]]]; try discriminate. cbn [b64_dec_q].
+    destruct (b64_val c0); [|discriminate]. destruct (b64_val c1); [|discriminate].
+    destruct (b64_val c2).
+    + destruct (b64_val c3).
+      * assert (Hr : (length r <= n)%nat) by (cbn [length] in Hl; lia).
+        specialize (IH r Hr q). destruct (b64_dec_q r); cbn [bind]; try discriminate. exact IH.
+      * destruct (c3 =? 61); [destruct r|]; discriminate.
+    + destruct ((c2 =? 61) && (c3 =? 61)); [destruct r|]; discriminate.
+Qed.
+Lemma b64_dec_no_panic l q : b64_dec l = Panic q -> False.
+Proof. unfold b64_dec. apply (b64_dec_q_no_panic _ _ (le_n _)). Qed.
+(* VerifyPowershell never panics (after relic commit 0aded3e: overlapping comment prefix and suffix are refused) *)
+Lemma ver_scan_no_panic i st en first last ok : forall ls found p, ver_scan i st en first last ok found ls <> Panic p.
+Proof.
+  induction ls as [|l ls IH]; intros found p; cbn [ver_scan]; [discriminate|].
+  destruct (ps_ver_notsigned _ found); [discriminate|].
+  destruct (match ls with [] => ok | _ :: _ => false end); [discriminate|].
+  destruct (ps_ver_is_last found l last); [discriminate|].
+  destruct found.
+  - destruct (ps_ver_malformed _ st en); [discriminate|].
+    unfold ps_ver_overlap. destruct (Z.ltb _ _) eqn:E; [discriminate|]. cbv iota.
+    destruct (b64_dec _) as [d|e|q] eqn:Eb; cbn [bind]; try discriminate.
+    + specialize (IH true p). destruct (ver_scan i st en first last ok true ls) as [[acc|]| |]; cbn [bind]; try discriminate.
+      intros X. apply IH. exact X.
+    + exfalso. eapply b64_dec_no_panic; exact Eb.
+  - destruct (ps_ver_is_first l first); apply IH.
+Qed.
+Theorem ps_extract_no_panic style f p : ps_extract style f <> Panic p.
+Proof.
+  unfold ps_extract. destruct (style_lookup style) as [[st en]|]; [|discriminate].
+  destruct (ps_lines (ps_is16 f) f) as [ls ok]. apply ver_scan_no_panic.
 Qed.
 Lemma ver_unsigned i st en first last : forall Ls s, Forall (fun l => l <> first) (Ls ++ [s]) ->
   ver_scan i st en first last true false (Ls ++ [s]) = Ok None.
